@@ -235,6 +235,23 @@ CHECKS["C05"] = dict(
     note="No I/O faults while writing (C12); the full descriptor's deserialisation is abstracted to accepted/rejected (C08/C06); toml text layer "
          "abstracted; `trace` feature off. " + BASE_NOTE)
 
+CHECKS["C06"] = dict(
+    text="Bounded model checking from MIR of the context construction in libcnb_runtime_detect/build (entered through libcnb_runtime): "
+         "read_buildpack_dir, read_buildpack_descriptor with the derived Deserialize of ComponentBuildpackDescriptor<GenericMetadata>, Buildpack, "
+         "BuildpackId, BuildpackVersion, BuildpackApi; context_target; read_platform_env (directory scan, is_file through symlinks, "
+         "read_to_string, Env::insert) via GenericPlatform::from_path; read_toml_file of BuildpackPlan/Entry and Store with the NotFound "
+         "tolerance. <platform>/env is missing or holds 2 entries, each a regular file | invalid-UTF-8 file | directory | symlink to file | symlink "
+         "to directory | dangling symlink | absent, with SMT-string names and contents; target variables are SMT strings (ARCH_VARIANT present or "
+         "not); 0..2 plan entries with symbolic names and optional metadata; optional descriptor name/metadata; store.toml absent | valid | "
+         "invalid UTF-8 | directory | invalid syntax; both phases. The solver decides per path that every context field equals what was "
+         "supplied (env = exactly the regular files incl. via symlink with exact name and content; free-form tables by identity), that "
+         "tolerated inputs are tolerated, and that an unreadable/unrepresentable input ends in exactly one on_error and a non-0/100 exit "
+         "without the phase running.",
+    design_ref="DESIGN.md §5 C06",
+    technique="symbolic execution of rustc MIR (mirsym) over a file-system model with symbolic directory entries and symlinks, SMT strings for names/contents/variables + z3; witness replay by re-executing the driver as detect/build and dumping the received context",
+    note="Quick tier explores all entry kinds in detect and a reduced set in build (same scanning code). Free-form TOML tables are identity-tracked; "
+         "non-UTF-8 file names and custom Platform/Metadata types are outside. " + BASE_NOTE)
+
 NOT_YET = "check not built yet in this round (see DESIGN.md §9 build order); no claim is made"
 NOT_APPLICABLE = {}
 ALL = [f"C{i:02d}" for i in range(1, 21)]
